@@ -47,30 +47,7 @@ pub(crate) fn in_dx(s: PeripheralState) -> bool {
     matches!(s, PeripheralState::PreDataExchange | PeripheralState::DataExchange)
 }
 
-/// FDL station whose parameters (the only thing the DP layer reads) are symbolic.
-pub(crate) fn any_fdl() -> FdlActiveStation {
-    let address: u8 = kani::any();
-    kani::assume(address <= 125);
-    let max_retry_limit: u8 = kani::any();
-    kani::assume(max_retry_limit >= 1 && max_retry_limit <= 15);
-    let min_tsdr_bits: u8 = kani::any();
-    kani::assume(min_tsdr_bits >= 11);
-    let watchdog_factors = if kani::any() {
-        let f1: u8 = kani::any();
-        let f2: u8 = kani::any();
-        kani::assume(f1 >= 1 && f2 >= 1);
-        Some((f1, f2))
-    } else {
-        None
-    };
-    FdlActiveStation::new(Parameters {
-        address,
-        max_retry_limit,
-        min_tsdr_bits,
-        watchdog_factors,
-        ..Default::default()
-    })
-}
+pub(crate) use crate::verif_support::any_fdl;
 
 /// Symbolic peripheral over caller-provided buffers.  Everything the state machine reads is
 /// symbolic; `inv_dp` constrains it to the representation invariant.
@@ -715,4 +692,49 @@ fn c08_request_pair_q() {
         }
         Err((_tx, None)) => {}
     }
+}
+
+// ==========================================================================================
+// helpers for the DP master harnesses (src/dp/master.rs cannot see this module's private types)
+// ==========================================================================================
+
+#[derive(Clone, Copy, PartialEq, Eq)]
+pub(crate) struct PSnap {
+    pub state: u8,
+    pub live: bool,
+    pub running: bool,
+    pub rc: u8,
+    pub fcb: FrameCountBit,
+    pub diag_needed: bool,
+    pub address: u8,
+}
+
+pub(crate) fn snap(p: &Peripheral) -> PSnap {
+    PSnap {
+        state: p.state as u8,
+        live: p.is_live(),
+        running: p.is_running(),
+        rc: p.retry_count,
+        fcb: p.fcb,
+        diag_needed: p.diag_needed,
+        address: p.address,
+    }
+}
+
+/// Reference prediction: will this peripheral send a request when given its turn?
+pub(crate) fn ref_will_send(p: &Peripheral, fdl: &FdlActiveStation) -> bool {
+    let diag_round = if p.retry_count == 0 { p.diag_needed } else { p.diag_requested };
+    ref_next_request(
+        p.state,
+        p.retry_count,
+        fdl.parameters().max_retry_limit,
+        diag_round,
+        p.options.user_parameters.is_some(),
+        p.options.config.is_some(),
+    ) != ReqKind::None
+}
+
+/// Reference prediction: will this peripheral be declared offline when given its turn?
+pub(crate) fn ref_goes_offline(p: &Peripheral, fdl: &FdlActiveStation) -> bool {
+    p.retry_count > fdl.parameters().max_retry_limit
 }
